@@ -257,8 +257,8 @@ for n, w in (("c13_mp_one", "mpmc, one receiver handle"), ("c13_mp_two_handles",
 
 # ---- blocking receive
 W = "scen_wait"
-WRULES = queue_rules(retry=4, extra=[(r'BlockingWait.*::wait', 3), (r'BusyWait.*::wait', 16), (r'YieldingWait.*::wait', 12),
-                                      (r'InnerRecv.*::recv_view', 4), (r'InnerRecv.*::recv', 4), (r'cv_wait_impl', 5)])
+WRULES = queue_rules(retry=3, extra=[(r'BlockingWait.*::wait', 3), (r'BusyWait.*::wait', 16), (r'YieldingWait.*::wait', 12),
+                                      (r'InnerRecv.*::recv_view', 3), (r'InnerRecv.*::recv', 3), (r'cv_wait_impl', 4)])
 for n, w in (("c08_mp_blk00_send", "mpmc BlockingWait(0,0): blocked recv vs one send"),
              ("c08_bc_blk00_senddrop", "broadcast BlockingWait(0,0): blocked recv vs send + drop of the last sender"),
              ("c08_mp_blk00_drop", "mpmc BlockingWait(0,0): blocked recv vs drop of the last sender"),
@@ -427,3 +427,6 @@ for _n in ("c05_bcfut_uni_addstream", "c05_mpfut_uni_addstream", "c14_bc_send_vs
 H("c11_bc_bothhandles_o1", L, "C11", ["C11", "C12", "C03", "C06"], "quick",
   "broadcast: the last two handles of a stream are dropped at the same time (one drop preempted everywhere by the other and by a send); exactly one of them must remove the stream, afterwards only the remaining stream limits the sender",
   "N=2, budget 2", rules=ADDRULES)
+H("c16_protocol_d2_o0", M, "C16", ["C16", "C17"], "thorough",
+  "REAL MemoryManager + ReadCursor, nesting depth 2: the writer's scan is preempted everywhere by the consumer's add_stream / remove_reader, and those are themselves preempted everywhere (e.g. between two steps of MemoryManager::free) by a third handle that retires one more object and so starts a reclamation cycle",
+  "19 pre-loaded retirements, 2 tokens, depth 2, budget 3, up to 2 ops per site", rules=MEMRULES, fp_restrict=FP, builtin_oracle=True, unwind=6, mem_gb=24, timeout=3000)
